@@ -55,6 +55,7 @@ func (n *LocalNode) Notify(predecessor chord.VNode) error {
 		if candidatePredecessor == nil {
 			return
 		}
+		verifPoint("notify.apply", n)
 		n.surrogateMu.Lock()
 		if surrogateSnapshot == n.surrogate {
 			if candidatePredecessor.ID() == n.ID() {
@@ -263,6 +264,7 @@ func (n *LocalNode) transferKeysUpward(ctx context.Context, prevPredecessor, new
 		return
 	}
 
+	verifPoint("xfer.up.imported", n)
 	// TODO: remove this when we implement replication
 	if err := n.kv.RemoveKeys(ctx, keys); err != nil {
 		n.logger.Error("Failed to remove keys from KV", zap.Error(err))
@@ -294,6 +296,7 @@ func (n *LocalNode) transferKeysDownward(ctx context.Context, successor chord.VN
 		return fmt.Errorf("storing KV to successor: %w", err)
 	}
 
+	verifPoint("xfer.down.imported", n)
 	// TODO: remove this when we implement replication
 	if err := n.kv.RemoveKeys(ctx, keys); err != nil {
 		n.logger.Error("Failed to remove keys from KV", zap.Error(err))
